@@ -307,6 +307,43 @@ def c05(r):
 
 
 # ------------------------------------------------------------------------------------------ C06
+def expected_fco2(conc, ref, bsted, bface, fsink, wp):
+    """the CO2 adjustment of water productivity (AquaCrop v7), written out independently of the package"""
+    if conc <= ref:
+        fw = 0.0
+    elif conc >= 550:
+        fw = 1.0
+    else:
+        fw = 1 - ((550 - conc) / (550 - ref))
+    f_old = (conc / ref) / (1 + (conc - ref) * ((1 - fw) * bsted + fw * ((bsted * fsink) + (bface * (1 - fsink)))))
+    if conc <= ref:
+        f = f_old
+    else:
+        if conc >= 2000:
+            f_new = 1.58
+        else:
+            fshape = -4.61824 - 3.43831 * fsink - 5.32587 * fsink * fsink
+            f_new = 1 + 0.58 * ((math.exp(((conc - ref) / (2000 - ref)) * fshape) - 1) / (math.exp(fshape) - 1))
+        f = f_old if (conc <= 550 and f_old < f_new) else f_new
+    ftype = 0.0 if wp >= 40 else (1.0 if wp <= 20 else (40 - wp) / (40 - 20))
+    return 1 + ftype * (f - 1)
+
+
+def season_fco2(ctx, s):
+    """CO2 factor season `s` must be simulated with: the configured constant concentration, else the yearly
+    series interpolated at the season's planting year (None when the inputs are not available)"""
+    co, c = ctx.get("co2"), ctx["crops"][s]
+    if not co or any(c.get(k) is None for k in ("bsted", "bface", "fsink", "WP")) or not (0 <= s < len(ctx["planting"])):
+        return None
+    if co["constant"]:
+        conc = co["current"]
+    else:
+        conc = float(np.interp(float(ctx["planting"][s][:4]), co["years"], co["ppm"]))
+    if not (conc > 0 and co["ref"] > 0):
+        return None
+    return expected_fco2(conc, co["ref"], c["bsted"], c["bface"], c["fsink"], c["WP"])
+
+
 def c06(r):
     out = []
     if r.ctx is None or r.growth is None or r.error is not None:
@@ -314,6 +351,7 @@ def c06(r):
     ctx = r.ctx
     w = ctx["weather"]
     prev = None
+    fco2_of = {}
     for d in r.days:
         t = d["t"]
         g, f = r.growth[t], r.flux[t]
@@ -333,7 +371,10 @@ def c06(r):
         b0 = prev[G_B] if (prev is not None and int(prev[G_SEASON]) == s and prev[G_T] == g[G_T] - 1) else (0.0 if g[G_DAP] == 1 else None)
         if b0 is not None:
             et0 = float(w[t, 3])
-            full = c["WP"] * c["fCO2"] * f[F_TR] / et0
+            if s not in fco2_of:
+                fco2_of[s] = season_fco2(ctx, s)
+            fco2 = fco2_of[s] if fco2_of[s] is not None else c["fCO2"]
+            full = c["WP"] * fco2 * f[F_TR] / et0
             low = full * min(1.0, c["WPy"] / 100.0)
             db = g[G_B] - b0
             if db > full + 1e-9 * max(1, full) or db < low - 1e-9 * max(1, full):
@@ -463,6 +504,33 @@ def c07(r):
 
 
 # ------------------------------------------------------------------------------------------ C13
+def gs_now_for_irr(L):
+    return bool(L.get("irr_in", {}).get("gs"))
+
+
+def estimated_depletion(P, th, zroot, zmin, tpot, epot, rain, runoff):
+    """root-zone depletion as the threshold strategy estimates it before the day's application: water short of field
+    capacity in the root zone (compartment storages to 0.01 mm), plus the day's expected losses (potential
+    transpiration and evaporation of the day before), minus what the day's rain leaves after runoff, minus any water the
+    root zone still holds above field capacity.  Written out from the profile and the water contents; returns
+    (depletion, total available water)."""
+    rootdepth = round(max(zroot, zmin), 2)
+    dzsum, dz = P["dzsum"], P["dz"]
+    sto = int(np.argwhere(dzsum >= rootdepth).flatten()[0])
+    act = fc = wp = 0.0
+    for i in range(sto + 1):
+        factor = 1 - ((dzsum[i] - rootdepth) / dz[i]) if dzsum[i] > rootdepth else 1
+        act += round(factor * 1000 * th[i] * dz[i], 2)
+        fc += round(factor * 1000 * P["th_fc"][i] * dz[i], 2)
+        wp += round(factor * 1000 * P["th_wp"][i] * dz[i], 2)
+    act = max(act, 0.0)
+    taw = max(fc - wp, 0.0)
+    dr = min(fc - act, taw)
+    th_act, th_fc = act / (rootdepth * 1000), fc / (rootdepth * 1000)
+    above = (th_act - th_fc) * 1000 * max(zroot, zmin) if th_act > th_fc else 0.0
+    return float(dr + tpot + epot - rain + runoff - above), float(taw)
+
+
 def c13(r):
     out = []
     if r.ctx is None or r.flux is None:
@@ -516,6 +584,20 @@ def c13(r):
             want = min(want, max(0.0, cap_room))
             if abs(x - want) > 1e-9:
                 out.append(V("C13", "constant-depth", r, t, "constant-depth irrigation not applied", irr=x, want=want))
+        if method == 1 and "depletion" in L and "irr_state" in L and gs_now_for_irr(L):
+            # the estimate the trigger works on, recomputed here from the soil profile and the state of the day
+            S_ = L["irr_state"]
+            c0 = ctx["crops"][s] if 0 <= s < len(ctx["crops"]) else None
+            if c0 is not None and c0.get("Zmin") is not None:
+                try:
+                    est, taw_est = estimated_depletion(ctx["prof"], S_["th"], S_["zroot"], float(c0["Zmin"]), S_["tpot"], S_["epot"],
+                                                       S_["rain"], S_["runoff"])
+                except Exception:  # noqa: BLE001
+                    est = None
+                if est is not None and (abs(est - L["depletion"]) > 0.02 + 1e-9 * abs(est) or abs(taw_est - L["taw"]) > 0.02 + 1e-9 * taw_est):
+                    out.append(V("C13", "depletion-estimate", r, t, "the root-zone depletion the threshold strategy acts on is not the estimated depletion",
+                                 used=L["depletion"], estimated=est, taw_used=L["taw"], taw_estimated=taw_est, irr=x,
+                                 rain=S_["rain"], runoff=S_["runoff"]))
         if method == 1 and "depletion" in L and L.get("taw", 0) > 0:
             # the growth stage in force is the one reached at the end of the previous day, counted in time since
             # germination (days or degree days after planting minus the germination delay) against the crop's
